@@ -4,9 +4,11 @@ package main
 // C06 (totality), C02 (chunk independence), parts of C01 and C11.
 
 import (
+	"go/constant"
 	"fmt"
 	"go/token"
 	"go/types"
+	"math"
 	"sort"
 	"strings"
 
@@ -104,6 +106,24 @@ func (p *Program) entryFacts(fn *ssa.Function, scope map[*ssa.Function]bool) []A
 			}
 			here = append(here, Atom{Kind: at.Kind, X: x, Y: y, Pos: at.Pos})
 		}
+		// constant bounds the caller has established for an integer argument by other means
+		// (a comparison with a limit kept in a field, a helper's result): handed on as facts
+		// about the parameter
+		for k, a := range site.Common().Args {
+			if k >= len(fn.Params) || !isIntType(a.Type()) {
+				continue
+			}
+			if _, isC := a.(*ssa.Const); isC {
+				continue
+			}
+			lo, hi, hasLo, hasHi := constBounds(a, factsAt(site.Block()), 1)
+			if hasHi {
+				here = append(here, Atom{Kind: "le", X: fn.Params[k], Y: ssa.NewConst(constant.MakeInt64(hi), types.Typ[types.Int]), Pos: true})
+			}
+			if hasLo {
+				here = append(here, Atom{Kind: "le", X: ssa.NewConst(constant.MakeInt64(lo), types.Typ[types.Int]), Y: fn.Params[k], Pos: true})
+			}
+		}
 		if i == 0 {
 			common = here
 			continue
@@ -156,6 +176,34 @@ func constBounds(v ssa.Value, facts []Atom, depth int) (lo, hi int64, hasLo, has
 			k := f.x.off - f.y.off + l.off
 			if !hasLo || k > lo {
 				lo, hasLo = k, true
+			}
+		}
+	}
+	// a fact relating the value to another value whose own bounds are constant (a limit kept in
+	// a field that every store keeps below a constant)
+	if depth < 3 && (!hasLo || !hasHi) {
+		for _, f := range ineqsOf(facts) {
+			if !hasHi && sameBase(f.x, l) && f.y.base != nil && !sameBase(f.y, l) { // l.base + f.x.off <= y
+				if _, yhi, _, yHasHi := constBounds(linValue(f.y), facts, depth+1); yHasHi {
+					hi, hasHi = yhi+f.y.off-f.x.off+l.off, true
+				}
+			}
+			if !hasLo && sameBase(f.y, l) && f.x.base != nil && !sameBase(f.x, l) { // x <= l.base + f.y.off
+				if xlo, _, xHasLo, _ := constBounds(linValue(f.x), facts, depth+1); xHasLo {
+					lo, hasLo = xlo+f.x.off-f.y.off+l.off, true
+				}
+			}
+		}
+	}
+	// an unexported field: the bounds that hold for every value ever stored into it (and the
+	// zero value it has before any store)
+	if !l.isLen && depth < 3 && (!hasLo || !hasHi) {
+		if flo, fhi, ok := fieldInvariant(l.base, depth); ok {
+			if !hasLo {
+				lo, hasLo = flo+l.off, true
+			}
+			if !hasHi {
+				hi, hasHi = fhi+l.off, true
 			}
 		}
 	}
@@ -212,6 +260,24 @@ func constBounds(v ssa.Value, facts []Atom, depth int) (lo, hi int64, hasLo, has
 				}
 				if !first && allHi && !hasHi {
 					hi, hasHi = mhi+l.off, true
+				}
+			}
+		}
+	}
+	// x * c for a positive constant c, when x is bounded so that the product cannot overflow
+	if bo, ok := l.base.(*ssa.BinOp); ok && !l.isLen && bo.Op == token.MUL && depth < 4 && (!hasLo || !hasHi) {
+		x, cst := bo.X, bo.Y
+		if _, isC := constInt(cst); !isC {
+			x, cst = bo.Y, bo.X
+		}
+		if cv, isC := constInt(cst); isC && cv > 0 {
+			xlo, xhi, xHasLo, xHasHi := constBounds(x, facts, depth+1)
+			if xHasLo && xHasHi && xlo >= 0 && xhi <= math.MaxInt64/cv {
+				if !hasLo {
+					lo, hasLo = xlo*cv+l.off, true
+				}
+				if !hasHi {
+					hi, hasHi = xhi*cv+l.off, true
 				}
 			}
 		}
@@ -1020,4 +1086,109 @@ func elemSize(p *Program, mk *ssa.MakeSlice) int64 {
 		return 1
 	}
 	return n
+}
+
+// linValue: the SSA value a linear form without offset stands for (nil for constants and lengths).
+func linValue(l lin) ssa.Value {
+	if l.base == nil || l.isLen {
+		return nil
+	}
+	return l.base
+}
+
+var fieldInvMemo = map[fieldKey][3]int64{}
+var fieldInvBusy = map[fieldKey]bool{}
+
+// fieldInvariant: v is a load of an unexported integer field; returns bounds that hold for the
+// zero value and for every value stored into that field anywhere in the defining package.
+func fieldInvariant(v ssa.Value, depth int) (lo, hi int64, ok bool) {
+	if v == nil {
+		return 0, 0, false
+	}
+	fa, k, isLoad := loadKey(v)
+	if !isLoad || !isIntType(v.Type()) {
+		return 0, 0, false
+	}
+	fld := k.st.Field(k.idx)
+	if fld.Exported() || fld.Pkg() == nil {
+		return 0, 0, false
+	}
+	if m, done := fieldInvMemo[k]; done {
+		return m[0], m[1], m[2] == 1
+	}
+	if fieldInvBusy[k] {
+		return 0, 0, false
+	}
+	fieldInvBusy[k] = true
+	defer delete(fieldInvBusy, k)
+	prog := fa.Parent().Prog
+	lo, hi, ok = 0, 0, true
+	var fns []*ssa.Function
+	var addFn func(f *ssa.Function)
+	addFn = func(f *ssa.Function) {
+		if f == nil || f.Blocks == nil {
+			return
+		}
+		fns = append(fns, f)
+		for _, a := range f.AnonFuncs {
+			addFn(a)
+		}
+	}
+	for _, sp := range prog.AllPackages() {
+		if sp.Pkg != fld.Pkg() {
+			continue
+		}
+		for _, m := range sp.Members {
+			switch x := m.(type) {
+			case *ssa.Function:
+				addFn(x)
+			case *ssa.Type:
+				for _, t := range []types.Type{x.Type(), types.NewPointer(x.Type())} {
+					ms := prog.MethodSets.MethodSet(t)
+					for i := 0; i < ms.Len(); i++ {
+						if f := prog.MethodValue(ms.At(i)); f != nil && f.Pkg == sp {
+							addFn(f)
+						}
+					}
+				}
+			}
+		}
+	}
+	seen := map[*ssa.Function]bool{}
+	for _, f := range fns {
+		if seen[f] || !ok {
+			continue
+		}
+		seen[f] = true
+		allInstrs(f, func(ins ssa.Instruction) {
+			st, isSt := ins.(*ssa.Store)
+			if !isSt || !ok {
+				return
+			}
+			fa2, isFA := st.Addr.(*ssa.FieldAddr)
+			if !isFA || fa2.Field != k.idx {
+				return
+			}
+			if st2 := derefStruct(fa2.X.Type()); st2 == nil || !types.Identical(st2, k.st) {
+				return
+			}
+			slo, shi, hasLo, hasHi := constBounds(st.Val, factsAt(st.Block()), depth+1)
+			if !hasLo || !hasHi {
+				ok = false
+				return
+			}
+			if slo < lo {
+				lo = slo
+			}
+			if shi > hi {
+				hi = shi
+			}
+		})
+	}
+	flag := int64(0)
+	if ok {
+		flag = 1
+	}
+	fieldInvMemo[k] = [3]int64{lo, hi, flag}
+	return lo, hi, ok
 }
